@@ -63,7 +63,9 @@ theorem wf_remove {s : St} (w : WF s) {l : Bool} {e : Nat} (he : e ∈ s.seq l) 
     by_cases hk : k = l
     · subst hk
       rw [if_pos rfl, List.length_erase_of_mem he]
+      have hpos := List.length_pos_of_mem he
       simp [remove, w.len k]
+      omega
     · rw [if_neg hk]; simp [remove, upd, hk, w.len k]
   · intro k x hx
     rw [hseq] at hx
